@@ -12,8 +12,17 @@
        (ClearOnSet / ClearOnDelete; FALSE = the wrong design, vacuity switch);
      - Copy builds an object with a fresh, empty memo table;
      - a raised 415 is not memoised (ErrorsNotMemoised);
-     - ExactKeyFirst: a key equal to the effective type wins before best-match is consulted;
-       otherwise the first key of maximal quality (MediaTypesOps!BestIdx) is designated.  *)
+     - the rule: the mapping designates the FIRST REGISTERED key of maximal positive quality for the
+       effective type (MediaTypesOps!BestIdx over the keys in registration order; the content type
+       plays the part of the Accept header, so its own q weighs every key and q=0 matches nothing);
+     - ExactKeyFirst: a key the effective type is LITERALLY equal to (same characters) wins before
+       the rule is consulted.  Content types are therefore modelled AS WRITTEN: [t, s, pm, q, qp, lit]
+       with q/qp as in MediaTypesOps!MRP and lit = "spelled exactly like the canonical spelling of
+       the media type [t, s, pm]" (FALSE: no blank after ";", quoted or re-cased parameter, trailing
+       ";", surrounding blanks, a q parameter ...).  Keys and default types are always canonical.
+       ShortcutInsideRule: the shortcut never leaves the set of keys of maximal positive quality;
+     - BareKeyShortcut = TRUE is the wrong design "after the literal key, the bare type/subtype key
+       is tried before the rule" (vacuity switch for FirstOfBest / NeverStale).  *)
 EXTENDS MediaTypesOps, TLC
 
 CONSTANTS Keys,            \* media types usable as mapping keys
@@ -22,15 +31,23 @@ CONSTANTS Keys,            \* media types usable as mapping keys
           Defaults,        \* default media types offered to Resolve
           NoRaiseCalls,    \* set of <<ct, default>> for which a raise_not_found=False call exists
           MaxObjs, MaxUpdate,
-          ClearOnSet, ClearOnDelete
+          ClearOnSet, ClearOnDelete,
+          BareKeyShortcut
 
 VARIABLES objs, last
 vars == <<objs, last>>
 
-NoType  == MT("-", "-", <<>>)       \* no Content-Type at all
-AnyType == MT("*", "*", <<>>)
+(* a content type as written *)
+WCT(t, s, pm, q, qp, lit) == [t |-> t, s |-> s, pm |-> pm, q |-> q, qp |-> qp, lit |-> lit]
+Lit(m)    == WCT(m.t, m.s, m.pm, QABSENT, Len(m.pm), TRUE)       \* the canonical spelling of media type m
+Alt(m)    == WCT(m.t, m.s, m.pm, QABSENT, Len(m.pm), FALSE)      \* another spelling of the same media type
+Wq(m, q, qp) == WCT(m.t, m.s, m.pm, q, qp, FALSE)                \* ... carrying a q parameter at position qp
+TypeOf(w) == MT(w.t, w.s, w.pm)
 NONE    == 0                        \* "no handler" (None, or the 415 error when raising)
 NOKEY   == MT("", "", <<>>)         \* filler for unused record fields
+NOCT    == Lit(NOKEY)
+NoType  == Lit(MT("-", "-", <<>>))  \* no Content-Type at all
+AnyType == Lit(MT("*", "*", <<>>))  \* the literal */* (other spellings of */* are outside the vocabulary)
 
 Rec(op, o, k, h, ct, d, r, res, err) ==
     [op |-> op, o |-> o, k |-> k, h |-> h, pairs |-> <<>>, ct |-> ct, d |-> d, r |-> r, res |-> res, err |-> err]
@@ -46,19 +63,27 @@ Without(map, k) == IF map = <<>> THEN <<>>
                    ELSE IF Head(map).k = k THEN Tail(map) ELSE <<Head(map)>> \o Without(Tail(map), k)
 
 (* ---- what the current mapping designates ---- *)
-Effective(ct, d) == IF ct = NoType \/ ct = AnyType THEN d ELSE ct
-AsHeader(t)      == <<MR(t.t, t.s, t.pm, QABSENT)>>
+Effective(ct, d) == IF ct = NoType \/ ct = AnyType THEN Lit(d) ELSE ct
+AsHeader(w)      == <<MRP(w.t, w.s, w.pm, w.q, w.qp)>>
 (* the handlers a resolution may legitimately return: those mapped under a key of maximal,
    positive quality for the effective type (the property's "designates by that matching rule") *)
 DesignatedSet(map, ct, d) ==
     LET t == Effective(ct, d)
         qs == [i \in DOMAIN map |-> Quality(AsHeader(t), map[i].k)]
     IN  {map[i].h : i \in {i \in DOMAIN map : qs[i] > 0 /\ \A j \in DOMAIN map : qs[j] <= qs[i]}}
-(* ... and the one the implementation picks among them (ExactKeyFirst, then first maximal) *)
+(* the rule: the handler under the first registered key of maximal positive quality *)
+RuleDesignated(map, ct, d) ==
+    LET b == BestIdx(AsHeader(Effective(ct, d)), KeySeq(map)) IN IF b = 0 THEN NONE ELSE map[b].h
+(* the literal-key shortcut applies *)
+ShortcutApplies(map, ct, d) ==
+    LET w == Effective(ct, d) IN w.lit /\ w.q = QABSENT /\ HasKey(map, TypeOf(w))
+BareKey(w) == MT(w.t, w.s, <<>>)
+(* what the implementation picks: ExactKeyFirst, then the rule *)
 Designated(map, ct, d) ==
-    LET t == Effective(ct, d) IN
-    IF HasKey(map, t) THEN Get(map, t)
-    ELSE LET b == BestIdx(AsHeader(t), KeySeq(map)) IN IF b = 0 THEN NONE ELSE map[b].h
+    LET w == Effective(ct, d) IN
+    IF ShortcutApplies(map, ct, d) THEN Get(map, TypeOf(w))
+    ELSE IF BareKeyShortcut /\ HasKey(map, BareKey(w)) THEN Get(map, BareKey(w))
+    ELSE RuleDesignated(map, ct, d)
 
 (* ---- primitives every mutation is made of ---- *)
 SetItem(ob, k, h) == [map |-> Put(ob.map, k, h), memo |-> IF ClearOnSet THEN {} ELSE ob.memo]
@@ -71,34 +96,34 @@ DelAll(ob) == IF ob.map = <<>> THEN ob ELSE DelAll(DelItem(ob, Head(ob.map).k)) 
 Upd(o, ob) == objs' = [objs EXCEPT ![o] = ob]
 
 Init == /\ \E k \in Keys, h \in HandlerIds : objs = <<[map |-> <<[k |-> k, h |-> h]>>, memo |-> {}]>>
-        /\ last = Rec("init", 0, NOKEY, 0, NOKEY, NOKEY, FALSE, 0, FALSE)
+        /\ last = Rec("init", 0, NOKEY, 0, NOCT, NOKEY, FALSE, 0, FALSE)
 
 Set(o, k, h) == /\ Upd(o, SetItem(objs[o], k, h))
-                /\ last' = Rec("set", o, k, h, NOKEY, NOKEY, FALSE, 0, FALSE)
+                /\ last' = Rec("set", o, k, h, NOCT, NOKEY, FALSE, 0, FALSE)
 Del(o, k) ==    /\ IF HasKey(objs[o].map, k) THEN Upd(o, DelItem(objs[o], k)) ELSE UNCHANGED objs
-                /\ last' = Rec("del", o, k, 0, NOKEY, NOKEY, FALSE, 0, ~HasKey(objs[o].map, k))     \* KeyError
+                /\ last' = Rec("del", o, k, 0, NOCT, NOKEY, FALSE, 0, ~HasKey(objs[o].map, k))     \* KeyError
 (* pop(k) raises KeyError for a missing key, pop(k, default) returns the default (dflt = TRUE) *)
 Pop(o, k, dflt) ==
     /\ IF HasKey(objs[o].map, k) THEN Upd(o, DelItem(objs[o], k)) ELSE UNCHANGED objs
-    /\ last' = Rec("pop", o, k, 0, NOKEY, NOKEY, dflt, IF HasKey(objs[o].map, k) THEN Get(objs[o].map, k) ELSE NONE,
+    /\ last' = Rec("pop", o, k, 0, NOCT, NOKEY, dflt, IF HasKey(objs[o].map, k) THEN Get(objs[o].map, k) ELSE NONE,
                    ~HasKey(objs[o].map, k) /\ ~dflt)
 Update(o, pairs) == /\ Upd(o, SetAll(objs[o], pairs))
-                    /\ last' = [Rec("update", o, NOKEY, 0, NOKEY, NOKEY, FALSE, 0, FALSE) EXCEPT !.pairs = pairs]
+                    /\ last' = [Rec("update", o, NOKEY, 0, NOCT, NOKEY, FALSE, 0, FALSE) EXCEPT !.pairs = pairs]
 (* a bulk update that fails part-way (the iterable raises after `pairs`, or the next pair is malformed):
    the items stored before the failure ARE part of the mapping, and each of them went through
    SetItem, so the memo table is as clear as after a complete update (PrefixOfFailedUpdateCounts) *)
 UpdateFail(o, pairs) == /\ Upd(o, SetAll(objs[o], pairs))
-                        /\ last' = [Rec("updatefail", o, NOKEY, 0, NOKEY, NOKEY, FALSE, 0, TRUE) EXCEPT !.pairs = pairs]
+                        /\ last' = [Rec("updatefail", o, NOKEY, 0, NOCT, NOKEY, FALSE, 0, TRUE) EXCEPT !.pairs = pairs]
 Clear(o) ==     /\ Upd(o, DelAll(objs[o]))
-                /\ last' = Rec("clear", o, NOKEY, 0, NOKEY, NOKEY, FALSE, 0, FALSE)
+                /\ last' = Rec("clear", o, NOKEY, 0, NOCT, NOKEY, FALSE, 0, FALSE)
 SetDefault(o, k, h) ==
     /\ IF HasKey(objs[o].map, k) THEN UNCHANGED objs ELSE Upd(o, SetItem(objs[o], k, h))
-    /\ last' = Rec("setdefault", o, k, h, NOKEY, NOKEY, FALSE, IF HasKey(objs[o].map, k) THEN Get(objs[o].map, k) ELSE h, FALSE)
+    /\ last' = Rec("setdefault", o, k, h, NOCT, NOKEY, FALSE, IF HasKey(objs[o].map, k) THEN Get(objs[o].map, k) ELSE h, FALSE)
 (* copy() of an EMPTIED mapping comes back populated with the framework's default handlers
    (Handlers(initial or {...})); that is outside the property and excluded here by the guard *)
 Copy(o) ==      /\ Len(objs) < MaxObjs /\ objs[o].map # <<>>
                 /\ objs' = Append(objs, [map |-> objs[o].map, memo |-> {}])
-                /\ last' = Rec("copy", o, NOKEY, 0, NOKEY, NOKEY, FALSE, Len(objs) + 1, FALSE)
+                /\ last' = Rec("copy", o, NOKEY, 0, NOCT, NOKEY, FALSE, Len(objs) + 1, FALSE)
 
 (* resolve(media_type, default, raise_not_found), memoised on its three arguments *)
 Resolve(o, ct, d, r) ==
@@ -129,12 +154,19 @@ NeverStale  == last.op = "resolve" =>
                   /\ (last.res = NONE) = (DesignatedSet(objs[last.o].map, last.ct, last.d) = {})
                   /\ last.res # NONE => last.res \in DesignatedSet(objs[last.o].map, last.ct, last.d)
                   /\ last.err = (last.res = NONE /\ last.r)
+(* where no key is literally equal, the resolution is exactly the rule's: first registered key of highest quality *)
+FirstOfBest == (last.op = "resolve" /\ ~ShortcutApplies(objs[last.o].map, last.ct, last.d)) =>
+                   last.res = RuleDesignated(objs[last.o].map, last.ct, last.d)
 (* the inductive reason: no memo entry ever disagrees with the mapping it belongs to *)
 MemoCoherent == \A o \in DOMAIN objs : \A e \in objs[o].memo : e.res = Designated(objs[o].map, e.ct, e.d)
 (* the exact-key shortcut never contradicts the matching rule *)
-ExactIsDesignated == \A o \in DOMAIN objs : \A ct \in CTypes, d \in Defaults :
+ShortcutInsideRule == \A o \in DOMAIN objs : \A ct \in CTypes, d \in Defaults :
                         LET r == Designated(objs[o].map, ct, d) IN
                         IF r = NONE THEN DesignatedSet(objs[o].map, ct, d) = {} ELSE r \in DesignatedSet(objs[o].map, ct, d)
+(* the STRICT reading "always the first registered key of highest quality" - refuted for the ExactKeyFirst design
+   (an earlier registered key that also matches, e.g. */* before application/json): kept as a documented
+   counterexample generator, not part of the property check *)
+ShortcutIsRule == last.op = "resolve" => last.res = RuleDesignated(objs[last.o].map, last.ct, last.d)
 (* a copy is independent: mutating one object never changes another *)
 CopyIndependent == [][\A o \in DOMAIN objs : (last'.op \notin {"copy"} /\ last'.o # o) => objs'[o] = objs[o]]_vars
 ========================================================================
